@@ -420,8 +420,8 @@ def run(ctx):
             e = v.inline(r.value)
             ok = isinstance(e, ast.BinOp) and isinstance(e.op, ast.Div) and int_count(e.left) and int_count(e.right)
             calls_other = any(isinstance(x, ast.Call) and v.ctx.callees(v.fi, x) for x in ast.walk(r.value))
-            floaty = any(isinstance(x, ast.BinOp) and isinstance(x.op, (ast.Sub, ast.Add)) and any(isinstance(y, ast.BinOp) and isinstance(y.op, ast.Div) or (isinstance(y, ast.Call) and v.ctx.callees(v.fi, y)) for y in (x.left, x.right)) for x in ast.walk(e))
-            res.add("D-RATIO", v.fi.short, norm(r), "single-division", "ok" if ok else ("violation" if floaty or not calls_other else "unknown"), "" if ok else "the similarity is not computed as one division of integer counts: an extra floating-point step (e.g. 1 - distance) makes `w >= s` fail when the similarity equals s exactly", loc(v.fi, r))
+            floaty = any(isinstance(x, ast.BinOp) and isinstance(x.op, (ast.Sub, ast.Add)) and any(isinstance(y, ast.BinOp) and isinstance(y.op, ast.Div) or (isinstance(y, ast.Call) and (v.ctx.callees(v.fi, getattr(y, "_orig", y)) or (isinstance(y.func, ast.Name) and any(g.name == y.func.id and g.module is v.fi.module and g.cls is None for g in v.ctx.prog.functions.values())))) for y in (x.left, x.right)) for x in ast.walk(e))
+            res.add("D-RATIO", v.fi.short, norm(r), "single-division", "ok" if ok else ("violation" if floaty else "unknown"), "" if ok else "the similarity is not computed as one division of integer counts: an extra floating-point step (e.g. 1 - distance) makes `w >= s` fail when the similarity equals s exactly", loc(v.fi, r))
             if ok:
                 i_ok, u_ok = setop(e.left, ("intersection",), ast.BitAnd), setop(e.right, ("union",), ast.BitOr)
                 st = "ok" if i_ok and u_ok else ("violation" if i_ok is False or u_ok is False else "unknown")
